@@ -3,7 +3,7 @@
    of ToSlice) is the finite map of stored prefixes, sorted by (address, length). *)
 From Coq Require Import List NArith Arith Bool.
 From Verif.Common Require Import Prefix.
-From Verif.C36 Require Import Model Spec Proofs Queries History.
+From Verif.C36 Require Import Model Spec Proofs Queries General History.
 Import ListNotations.
 
 (* Update keeps the invariant and is insertion into the map of stored prefixes. *)
@@ -75,10 +75,7 @@ Print Assumptions c36_overlap.
 
 (* The specification oracle accepts every run of the model from the empty trie, for traces of
    Update/Delete/Get/Covers/Intersects/LookupPath/ToSlice and host-address LPM.
-   PARTIAL: ClosestDescendants and LPM with a shorter-than-host query are not covered by a
-   theorem yet (c36_closest_descendants, c36_lpm_general of the design are missing); for those
-   two the oracle is applied to the implementation's and the model's outputs by the
-   correspondence run only. *)
+   Kept for reference; superseded by c36_model_meets_spec below, which covers all operations. *)
 Theorem c36_model_meets_spec_partial : forall w ops,
   forallb (op_wf w) ops = true -> forallb (op_proved w) ops = true ->
   ok_trace w ops (run w Leaf ops) = true.
@@ -94,3 +91,51 @@ Example c36_model_meets_spec_nontrivial :
                      OBool true; OEntries [(mkP 167772162 31, 3%N)];
                      OEntries [(mkP 167772162 31, 3%N); (mkP 167772168 30, 2%N)]].
 Proof. repeat split; vm_compute; reflexivity. Qed.
+
+(* A prefix has a node in the trie exactly when it is stored or is a branch point of the
+   stored set (stored prefixes on both sides just below it). *)
+Theorem c36_node_iff : forall w t q, wf w t -> wfp w q ->
+  is_leaf (get_node w t q true) = negb (is_node w (to_slice t) q).
+Proof. intros w t q W Hq. exact (node_iff w q Hq t W). Qed.
+Print Assumptions c36_node_iff.
+
+(* ClosestDescendants (the Go recursion that re-looks-up every data-less child from the root)
+   never runs out of the fuel w+2 and returns, appended to the caller's buffer and in address
+   order, the stored prefixes strictly inside q that have no stored prefix strictly between q
+   and them -- when q is stored or a branch point; otherwise it returns nil (and drops buf). *)
+Theorem c36_closest_descendants : forall w t q buf, wf w t -> wfp w q ->
+  closest_descendants w (cd_fuel w) t buf q =
+  Some (if is_node w (to_slice t) q then buf ++ closest w (to_slice t) q else []).
+Proof. exact closest_descendants_spec. Qed.
+Print Assumptions c36_closest_descendants.
+
+Example c36_closest_descendants_nontrivial :
+  (* the example of the Go doc comment: 10.0.0.0/16 -> 10.0.1.0/24 -> 10.0.1.1/32 and the
+     data-less 10.0.2.0/23-ish branch holding 10.0.2.1/32 *)
+  let ops := [OpUpdate (mkP 167772160 16) 1; OpUpdate (mkP 167772416 24) 2; OpUpdate (mkP 167772417 32) 3;
+              OpUpdate (mkP 167772673 32) 4]%N in
+  let t := run_trie 32 Leaf ops in
+  closest_descendants 32 (cd_fuel 32) t [] (mkP 167772160 16) = Some [mkP 167772416 24; mkP 167772673 32] /\
+  spec_closest 32 (to_slice t) (mkP 167772160 16) = [mkP 167772416 24; mkP 167772673 32].
+Proof. split; vm_compute; reflexivity. Qed.
+
+(* LPM for an arbitrary CIDR query: if the query is stored or a branch point, the longest stored
+   prefix covering it; otherwise the longest stored prefix containing the query's address, which
+   may be longer than the query itself. *)
+Theorem c36_lpm_general : forall w t q, wf w t -> wfp w q ->
+  lpm w t q = spec_lpm_general w (to_slice t) q.
+Proof. exact lpm_general_spec. Qed.
+Print Assumptions c36_lpm_general.
+
+(* the documented quirk, exhibited: only 10.0.0.0/28 stored, LPM(10.0.0.0/24) returns the /28 *)
+Example c36_lpm_general_longer_than_query :
+  lpm 32 (update 32 Leaf (mkP 167772160 28) 1%N) (mkP 167772160 24) = Some (mkP 167772160 28, 1%N).
+Proof. vm_compute. reflexivity. Qed.
+
+(* The specification oracle accepts every run of the model from the empty trie: any sequence of
+   Update/Delete/Get/LPM/Covers/Intersects/ClosestDescendants/LookupPath/ToSlice on well-formed
+   prefixes. *)
+Theorem c36_model_meets_spec : forall w ops,
+  forallb (op_wf w) ops = true -> ok_trace w ops (run w Leaf ops) = true.
+Proof. intros w ops H. exact (model_meets_spec w ops Leaf I H). Qed.
+Print Assumptions c36_model_meets_spec.
